@@ -232,7 +232,17 @@ def make_traced_class():
             i = self._tr.next_id
             self._tr.next_id += 1
             self._ids[id(v)] = i
-            return "%d %d %d" % (i, get_size(v), sys.getsizeof(v))
+            return "%d %d %d" % (i, self._size(v), sys.getsizeof(v))
+
+        def _size(self, v):
+            # the size function is part of the code under test: if it raises on a legitimate value the history
+            # reports that (clean-up, which calls it on the whole store, cannot terminate normally either)
+            try:
+                return get_size(v)
+            except Exception as ex:  # noqa
+                self._tr.failures.append(("get_size raised %s: %s" % (type(ex).__name__, str(ex)[:100]),
+                                          type(v).__name__))
+                return int(getattr(v, "nbytes", 0))
 
         def h_header(self):
             tr = self._tr
@@ -336,7 +346,7 @@ def make_traced_class():
                     tr.stored_hash[key] = (self.data[key], checksum(self.data[key]))
                 vid = self._ids[id(self.data[key])]
             del tr.dels[:]
-            exceeded = get_size(self.data) >= self.memory_threshold_inGB * 1024 * 1024 * 1024
+            exceeded = self._size(self.data) >= self.memory_threshold_inGB * 1024 * 1024 * 1024
             tr.cleanups_exceeded += exceeded
             try:
                 super().cleanup_cache()
@@ -395,6 +405,8 @@ def gen_config(rng, tier):
         cfg["derived"] = rng.sample(DERIVED_INPUTS, rng.randrange(1, 3))
     if rng.random() < 0.3:
         cfg["center"] = [0.25, -0.125, 0.5]      # an off-centre extraction sphere / tetrad centre
+    if rng.random() < 0.25:
+        cfg["backing"] = "frombuffer"
     return cfg
 
 
@@ -456,7 +468,12 @@ def build(cfg):
         for e in INPUT_SETS[cfg["inputs"]]:
             k, f = (e, e) if isinstance(e, str) else e
             if k not in cfg["drop"]:
-                rel.h_assign(k, fields[f].copy())
+                v = fields[f].copy()
+                if cfg.get("backing") == "frombuffer":
+                    # arrays that do not own their memory and whose base is not an ndarray (np.frombuffer over a
+                    # bytearray; np.memmap behaves alike): legitimate inputs, e.g. data mapped from a file
+                    v = np.frombuffer(bytearray(v.tobytes()), dtype=v.dtype).reshape(v.shape)
+                rel.h_assign(k, v)
     if cfg.get("derived"):
         _, core, _ = aurel_modules()
         src = core.AurelCore(fd, verbose=False, vacuum=cfg["vacuum"], Lambda=cfg["Lambda"], tetrad=cfg["tetrad"], lmax=2)
